@@ -247,7 +247,12 @@ def set_union_merge_many(list arrays):
             result_view[result_len] = min_value
             result_len += 1
 
-            pointers[min_arrnum] += 1
+            # Advance every array whose head is the emitted value, so a value
+            # present in several arrays is emitted once.
+            for arrnum in range(num_arrays):
+                ptr = pointers[arrnum]
+                if ptr < limits[arrnum] and values[ptr] == min_value:
+                    pointers[arrnum] += 1
 
     return result[:result_len]
 
